@@ -382,7 +382,7 @@ func main() {
 	exhaustive := true
 	// FloPoCo: two process executions per value (the type shells out) — own time budget
 	t2 = time.Now()
-	budget := 25 * time.Second
+	budget := 45 * time.Second
 	if run.Thorough() {
 		budget = 150 * time.Second
 	}
